@@ -99,7 +99,7 @@ func (p c11) builders(r *core.Result, c core.Case) {
 	fps := map[string]bool{}
 	tp := rig.NewTransportPair(faultconn.Options{}, nil, &lime.TCPConfig{ReadLimit: 64 << 20})
 	tp.CA.SetTap(false)
-	defer func() { _ = tp.A.Close(); _ = tp.B.Close() }()
+	defer func() { tp.Close() }()
 	wire := func(label string, v interface{}, kind string) {
 		r.Count("built", 1)
 		b, err := json.Marshal(v)
@@ -123,8 +123,7 @@ func (p c11) builders(r *core.Result, c core.Case) {
 		if err != nil {
 			r.Violate("C11/invalid/"+label+"/transport-receive", fmt.Sprintf("%s: built envelope %s is rejected by the receive path: %v", label, b, err))
 			// the decoder may be latched: rebuild the pair
-			_ = tp.A.Close()
-			_ = tp.B.Close()
+			tp.Close()
 			tp = rig.NewTransportPair(faultconn.Options{}, nil, &lime.TCPConfig{ReadLimit: 64 << 20})
 			tp.CA.SetTap(false)
 			return
